@@ -99,6 +99,21 @@ def refusal_cases(run, rng, n):
                 continue
             pts = sorted({0, m, rng.choice(inner)})
         chunks = tuple(b - a for a, b in zip(pts, pts[1:]))
+        if rng.random() < 0.35:
+            # every block holds ONE group and every group spans several blocks (the planner prefers cohorts here)
+            per, ng = rng.randint(2, 3), rng.randint(2, 3)
+            csz = rng.randint(1, 2)
+            labels = np.repeat(np.arange(ng), per * csz)
+            m = len(labels)
+            vals = np.array([float(rng.randint(-5, 5)) for _ in range(m)])
+            chunks = (csz,) * (per * ng)
+        blocks_of = {}
+        off = 0
+        for bi, c in enumerate(chunks):
+            for g in set(labels[off:off + c].tolist()):
+                blocks_of.setdefault(g, set()).add(bi)
+            off += c
+        straddles = any(len(b) > 1 for b in blocks_of.values())
         arr = da.from_array(vals, chunks=(chunks,))
         for method in (None, "map-reduce", "cohorts", "blockwise"):
             run.count(f"ref|{labels.tolist()}|{chunks}|{func}|{method}", True)
@@ -115,7 +130,8 @@ def refusal_cases(run, rng, n):
                 continue
             npf = {"median": np.median, "nanmedian": np.nanmedian}.get(func) or (lambda a: getattr(np, func)(a, 0.25))
             want = np.array([npf(vals[labels == g]) for g in np.unique(labels)])
-            if method in ("map-reduce", "cohorts") or got.shape != want.shape or not np.allclose(got, want, equal_nan=True):
+            # computed: allowed only when every group lies within one block (an explicit method='blockwise' rechunks 1-D labels first)
+            if method in ("map-reduce", "cohorts") or (method is None and straddles) or got.shape != want.shape or not np.allclose(got, want, equal_nan=True):
                 run.violation({"property": "C18", "kind": "order statistic computed on chunked input although groups straddle blocks, or wrong",
                                "labels": labels.tolist(), "chunks": list(chunks), "func": func, "method": method,
                                "got": got.tolist(), "want": want.tolist()}, tag="ref")
